@@ -12,6 +12,10 @@ import (
 // symbolic attribute operations, Close. Reopen read-only and compare with the model. A session without
 // modification leaves the bytes identical.
 func verifSessionsScript(prefix, nsessions int) {
+	verifSessionsScriptOpt(prefix, nsessions, false)
+}
+
+func verifSessionsScriptOpt(prefix, nsessions int, narrow bool) {
 	vrt.LoopBound(400000) // the no-op session compares the whole file byte by byte
 	fw, err := CreateForWrite("c10.h5", CreateTruncate)
 	vrt.AssertNoErr(err, "create-ok")
@@ -36,7 +40,15 @@ func verifSessionsScript(prefix, nsessions int) {
 		fw2, err := OpenForWrite("c10.h5", OpenReadWrite)
 		vrt.AssertNoErr(err, "open-for-write-ok")
 		modified := false
-		switch vrt.Choice(4) {
+		nchoice := 4
+		if narrow {
+			nchoice = 2
+		}
+		pick := vrt.Choice(nchoice)
+		if narrow {
+			pick = 2 + pick // upsert or delete only
+		}
+		switch pick {
 		case 0: // no operation
 		case 1, 2: // upsert
 			da, err := fw2.OpenDataset("/a")
@@ -108,6 +120,65 @@ func verifSessionsScript(prefix, nsessions int) {
 }
 
 func VerifH_C10_api_sessions_compact() { verifSessionsScript(2, 1) }
+
+// two sessions on dense storage, upsert/delete only (delete in one session, add in the next)
+func VerifH_C10_api_sessions_dense_two() { verifSessionsScriptOpt(9, 2, true) }
+
+// a session that replaces a string attribute by a slightly longer one (header growth of 0..9 bytes) on an object that is
+// followed by another: refused or applied, never at the neighbour's expense
+func VerifH_C10_api_session_small_growth() {
+	vrt.LoopBound(400000)
+	fw, err := CreateForWrite("c10g.h5", CreateTruncate)
+	vrt.AssertNoErr(err, "create-ok")
+	a, err := fw.CreateDataset("/a", Int32, []uint64{1})
+	vrt.AssertNoErr(err, "create-a-ok")
+	vrt.AssertNoErr(a.Write([]int32{5}), "write-a-ok")
+	base := 1 + vrt.Choice(8) // so that the header end falls on every residue modulo 8
+	s0 := make([]byte, base)
+	for i := range s0 {
+		s0[i] = 'x'
+	}
+	vrt.AssertNoErr(a.WriteAttribute("s", string(s0)), "attr-ok")
+	b, err := fw.CreateDataset("/b", Int32, []uint64{2})
+	vrt.AssertNoErr(err, "create-b-ok")
+	y0, y1 := vrt.I32(), vrt.I32()
+	vrt.AssertNoErr(b.Write([]int32{y0, y1}), "write-b-ok")
+	vrt.AssertNoErr(fw.Close(), "close-ok")
+	fw2, err := OpenForWrite("c10g.h5", OpenReadWrite)
+	vrt.AssertNoErr(err, "open-for-write-ok")
+	da, err := fw2.OpenDataset("/a")
+	vrt.AssertNoErr(err, "open-dataset-ok")
+	grow := vrt.Choice(10)
+	s1 := make([]byte, base+grow)
+	for i := range s1 {
+		s1[i] = 'y'
+	}
+	werr := da.WriteAttribute("s", string(s1))
+	vrt.AssertNoErr(fw2.Close(), "session-close-ok")
+	f, err := Open("c10g.h5")
+	vrt.AssertNoErr(err, "reopen-ok")
+	db := verifFindDataset(f, "/b")
+	vrt.Assert(db != nil, "objects-present")
+	if db != nil {
+		v, err := db.Read()
+		vrt.AssertNoErr(err, "b-read-ok")
+		vrt.Assert(len(v) == 2 && v[0] == float64(y0) && v[1] == float64(y1), "b-data-preserved")
+	}
+	da2 := verifFindDataset(f, "/a")
+	vrt.Assert(da2 != nil, "objects-present")
+	if da2 != nil {
+		got, err := da2.ReadAttribute("s")
+		vrt.AssertNoErr(err, "a-attr-read-ok")
+		gs, _ := got.(string)
+		if werr == nil {
+			vrt.Assert(gs == string(s1), "a-attr-as-model")
+		} else {
+			vrt.Assert(gs == string(s0), "a-attr-as-model")
+		}
+	}
+	vrt.Covered("sessions-compared")
+	_ = f.Close()
+}
 func VerifH_C10_api_sessions_dense() { verifSessionsScript(9, 1) }
 func VerifH_C10_api_sessions2_thorough() { verifSessionsScript(2, 2) }
 func VerifH_C10_api_sessions_dense2_thorough() { verifSessionsScript(9, 2) }
